@@ -328,3 +328,29 @@ def cleanup():
         except OSError:
             pass
     del _scratch[:]
+
+
+def judge_batch(spec, cases, cfg=None, chunk=2500, tags=("BAD",), workers=1, jobs=8, timeout=1800,
+                chk=None, env=None):
+    """Judge a list of cases with several TLC processes side by side (the per-case state spaces are
+    tiny, so one worker per process and several processes is much faster than one process with 16
+    workers).  Every tagged tuple carries the case number in position 1; it is translated back to
+    the 0-based index into `cases`.  Returns {tag: [tuple, ...]}."""
+    from concurrent.futures import ThreadPoolExecutor
+    offs = list(range(0, len(cases), chunk))
+
+    def one(off):
+        path = write_cases(cases[off:off + chunk])
+        e = dict(env or {})
+        e["CASES"] = path
+        return off, run_tlc(spec, cfg=cfg, env=e, workers=workers, timeout=timeout)
+
+    out = {t: [] for t in tags}
+    with ThreadPoolExecutor(max_workers=jobs) as ex:
+        for off, res in ex.map(one, offs):
+            if chk is not None:
+                chk.add_tlc(res)
+            for t in tags:
+                for tup in res.tagged(t):
+                    out[t].append((tup[0], off + tup[1] - 1) + tuple(tup[2:]))
+    return out
